@@ -19,4 +19,11 @@ for d in oracle/*/; do
 done
 wait
 ( cd harness && cp /repo/go.sum go.sum && go build -tags verif -ldflags=-checklinkname=0 -o "$VERIF/.work/bin/gvh_verif" ./cmd/gvh )
+# translators (C08 flags/call graph, C20 package-level writers): warm the build cache
+if [ -d translate ]; then ( cd translate && go build ./... 2>&1 | tail -3 || true ); fi
+# per-engine harness binaries
+for d in harness/cmd/gvh-*/; do
+  n=$(basename "$d")
+  ( cd harness && go build -tags verif -ldflags=-checklinkname=0 -o "$VERIF/.work/bin/${n}_warm" "./cmd/$n" 2>&1 | tail -3 || true )
+done
 echo "setup done"
